@@ -65,6 +65,8 @@ def plans(tier, seed):
         [("take", ["o1", "o2"]), ("reset", []), ("finish", [])],
         [("finish", []), ("reset", []), ("drop", ["o1", "o2"])],
         [("reset", [])],
+        [("drop", ["o1", "o2"]), ("take", ["o1", "o2"]), ("drop", ["o1", "o2"])],  # the same call refused first, applicable later
+        [("take", ["o1", "o2"]), ("drop", ["o1", "o2"]), ("take", ["o1", "o2"])],  # ... and applicable, undone, applicable again
         [("shift", ["o1", "o2", "o2"])],  # stays in place: deletes and adds the same fact
         [("take", ["o1", "o2"]), ("shift", ["o1", "o2", "o2"]), ("shift", ["o1", "o2", "o3"])],
         [("shift", ["o1", "o2", "o3"]), ("shift", ["o1", "o3", "o3"]), ("drop", ["o1", "o3"])],
